@@ -600,11 +600,22 @@ func (n *SimNode) CheckQuiescent() {
 	if v.Shutdown {
 		return
 	}
+	// Members() hands out pointers into live records: only the (immutable)
+	// names are read through it, metadata comes from the locked dump taken at
+	// the same quiescent instant.
 	members := m.Members()
 	if n.Ev != nil {
+		byName := liveOf(v)
 		actual := map[string]memberInfo{}
 		for _, mb := range members {
-			actual[mb.Name] = memberInfo{mb.Addr.String(), mb.Port, string(mb.Meta)}
+			info, ok := byName[mb.Name]
+			if !ok {
+				n.sink.add(n.Name, "C07/members-vs-table", "Members() lists %s but the table holds no live record for it", mb.Name)
+			}
+			actual[mb.Name] = info
+		}
+		if len(byName) != len(members) {
+			n.sink.add(n.Name, "C07/members-vs-table", "Members() returns %d nodes, the table holds %d live records", len(members), len(byName))
 		}
 		n.Ev.compare("quiescent", n.Ev.Present(), actual)
 	}
@@ -712,4 +723,17 @@ func (c *Cluster) Converged() bool {
 		}
 	}
 	return true
+}
+
+// LogTails returns the last k log lines of every node (for witnesses).
+func (c *Cluster) LogTails(k int) map[string][]string {
+	out := map[string][]string{}
+	for _, n := range c.Nodes {
+		key := n.Name
+		if n.Stopped {
+			key += "(stopped)"
+		}
+		out[key] = append(out[key], n.Log.Tail(k)...)
+	}
+	return out
 }
